@@ -8,7 +8,7 @@
    directly in an attribute graph of u"; before a b l = a occurs strictly before b in l;
    wf gr = no node and no graph object occurs twice in the scope. *)
 From Coq Require Import ZArith List Bool Arith Lia Permutation Relations.
-From IRV Require Import Base.Exn C12.Model C12.Proofs1 C12.Proofs2 C12.Proofs3 C12.Proofs4 C12.Proofs5 C12.Proofs6 C12.Proofs7 C12.GenModel Gen.C12Gen C12.GenEquiv.
+From IRV Require Import Base.Exn C12.Model C12.Proofs1 C12.Proofs2 C12.Proofs3 C12.Proofs4 C12.Proofs5 C12.Proofs6 C12.Proofs7 C12.GenModel Gen.C12Gen C12.GenEquiv C12.Proofs8 C12.Proofs9.
 Import ListNotations.
 
 (* Sample scope: graph 0 = [n0 (If with body graph 1 = [n2 uses n1; n3 uses n2]); n1; n4 uses n0, n1(twice), None].
@@ -123,3 +123,72 @@ Print Assumptions C12_deterministic.
 Theorem C12_source_is_model : forall gr, gsort gen_src gr = sort_graph gr.
 Proof. exact gen_sort_is_model. Qed.
 Print Assumptions C12_source_is_model.
+
+(* Write-back through the linked set (box-level model of DoublyLinkedSet of property C11, imported read-only):
+   s is the graph's linked set before the sort (well formed, holding the old sequence), the sort re-links it by
+   extend(new).  Afterwards the set is well formed and forward iteration, backward iteration, len, indexing and
+   membership all describe `new` — the consistency of list(graph), reversed(graph), graph[i], len(graph) after
+   a successful sort (seeded change C12-r5m1 broke exactly this). *)
+Theorem C12_writeback_views_agree :
+  forall gr os g old new (s : IRV.C11.Model.st),
+  wf gr -> sort_graph gr = (Ok tt, os) -> In (g, old) (orders gr) -> In (g, new) os ->
+  IRV.C11.Proofs2.wf s -> IRV.C11.Model.to_list s = old ->
+  let s' := IRV.C11.Model.extend new s in
+  IRV.C11.Proofs2.wf s' /\ IRV.C11.Model.to_list s' = new /\
+  IRV.C11.Model.list_of true s' = Some new /\ IRV.C11.Model.list_of false s' = Some (rev new) /\
+  IRV.C11.Model.slen s' = length new /\
+  (forall i, IRV.C11.Model.getitem i s' = IRV.C11.Proofs3.py_index new i) /\
+  (forall x, IRV.C11.Model.mem x s' = Ok (existsb (Nat.eqb x) new)).
+Proof. exact sort_writeback_views_agree. Qed.
+Print Assumptions C12_writeback_views_agree.
+
+(* hypotheses satisfiable: the linked set built by extend on the empty set is well formed (C11_wf_init) *)
+Example C12_writeback_nonvacuous :
+  IRV.C11.Proofs2.wf (IRV.C11.Model.extend [0; 2] IRV.C11.Model.empty) /\
+  IRV.C11.Model.to_list (IRV.C11.Model.extend [0; 2] IRV.C11.Model.empty) = [0; 2].
+Proof. split; [apply IRV.C11.Property.C11_wf_init | reflexivity]. Qed.
+
+(* Frame: Graph.sort called on a graph t inside a forest (sort_in; t may be the root, a subgraph, or a graph nested
+   in a function body) lists the same graphs afterwards, leaves every graph outside the scope of t exactly as it
+   was whatever the outcome, and gives the graphs of the scope the sequences computed by sort_graph on t. *)
+Theorem C12_frame :
+  forall root t sub r os, find_graph t root = Some sub -> sort_in root t = (r, os) ->
+  map fst os = map fst (orders root) /\
+  (forall g old, In (g, old) (orders root) -> ~ In g (map fst (orders sub)) -> In (g, old) os) /\
+  (forall g old, In (g, old) (orders root) -> In g (map fst (orders sub)) ->
+     exists new, In (g, new) (snd (sort_graph sub)) /\ In (g, new) os) /\
+  r = fst (sort_graph sub).
+Proof. exact sort_in_frame. Qed.
+Print Assumptions C12_frame.
+
+Example C12_frame_nonvacuous :
+  find_graph 1 ex_dag = Some (1, [Node 3 [Some 2] []; Node 2 [Some 1; None] []]) /\
+  sort_in ex_dag 1 = (Ok tt, [(0, [0; 4; 1]); (1, [2; 3])]).
+Proof. split; vm_compute; reflexivity. Qed.
+
+(* A scope is a finite tree: every node nested in n is strictly smaller than n, so no graph contains itself.  A
+   Graph object nested in itself can be built through the API (assign an attribute after construction); it has
+   no serialised form, the recursive iterator does not terminate on it (RecursionError, nothing re-linked —
+   probed on every run) and it is outside the property's quantifier ("subgraphs nested to any depth"). *)
+Theorem C12_no_self_nesting : forall n m, In m (tl (desc_n n)) -> size m < size n.
+Proof. exact no_self_nesting. Qed.
+Print Assumptions C12_no_self_nesting.
+
+(* Step 1 of Graph.sort (the predecessor-collection loop with the guards of add_predecessor), translated from the
+   source on every run into folds over the Python-level view of a node (inputs: None / a Value with its producer;
+   attributes: other / reference / GRAPH / GRAPHS), computes exactly the predecessor list the model — and hence the
+   relation `uses` of the theorems above — is built from: the in-scope producers of the inputs in input order, then
+   the nodes directly in the attribute graphs in attribute order. *)
+Theorem C12_collection_is_model :
+  forall gr g n ins ats,
+  NoDup (ids gr) -> In (g, n) (placed gr) ->
+  map view_in ins = nins n ->
+  concat (map view_at ats) = map (fun s : nat * list node => map nid (snd s)) (nsubs n) ->
+  gen_collect (fun p => memb p (ids gr)) ins ats = preds_of (entries gr) (nid n).
+Proof. exact gen_collect_is_model. Qed.
+Print Assumptions C12_collection_is_model.
+
+Example C12_collection_nonvacuous :
+  gen_collect (fun p => memb p (ids ex_dag)) [PVal (Some 1); PNone; PVal None; PVal (Some 99)]
+              [POther; PGraphs [[3; 2]; []]; PRef; PGraph [4]] = [1; 3; 2; 4].
+Proof. vm_compute. reflexivity. Qed.
